@@ -172,11 +172,42 @@ def run_impl(cases):
   return [out[i] for i in range(len(cases))]
 
 
+GATE = 0.1      # inverse_failure_threshold (default): a root with reported error >= GATE is discarded
+
+
+def gate_ambiguous(step):
+  """A reported root error within a factor 4 of the acceptance gate (or non-finite, or on different
+  sides of it in the three runs): rounding noise decides whether the new root replaces the old one,
+  a discrete decision the comparison cannot follow (DESIGN 3: guard within tolerance of its threshold
+  => skipped and counted)."""
+  errs = list(step["A"].get("err", [])) + list(step["P"].get("err", []))
+  for b in step["B"]:
+    errs += list(b.get("err", []))
+  if any(e < 0 for e in errs):
+    return True
+  near = any(GATE / 4 <= e <= GATE * 4 for e in errs)
+  eb = [e for b in step["B"] for e in b.get("err", [])]
+  flips = any((x >= GATE) != (y >= GATE) for x, y in zip(step["A"].get("err", []), eb)) or any(
+      (x >= GATE) != (y >= GATE) for x, y in zip(step["A"].get("err", []), step["P"].get("err", [])))
+  return near or flips
+
+
 def evaluate(ctx, results, tag):
   terms, idx = [], []
   for i, r in enumerate(results):
     if "exc" in r:
       continue
+    if r["case"]["kind"] == "ds":
+      # the history is checked up to (excluding) the first step with an ambiguous acceptance gate
+      n = len(r["steps"])
+      for t, st in enumerate(r["steps"]):
+        if gate_ambiguous(st):
+          r["gate_skipped"] = n - t
+          r["steps"] = r["steps"][:t]
+          break
+      if not r["steps"]:
+        r["code"], r["nonbitwise"] = 0, [0, 0, 0]
+        continue
     if not all(s["finite"] for s in r["steps"]):
       r["exc"] = "non-finite update from finite gradients (blocked / separate / with companions)"
       continue
@@ -192,6 +223,12 @@ def evaluate(ctx, results, tag):
 
 def report(ctx, results):
   seen = set()
+  tot = sum(len(r.get("steps", [])) + r.get("gate_skipped", 0) for r in results if "exc" not in r)
+  skipped = sum(r.get("gate_skipped", 0) for r in results)
+  if tot and skipped > 0.05 * tot:
+    ctx.violation("correspondence-broken", dict(
+        theorem_or_check="generator degenerate", actual="%d of %d steps skipped as ambiguous" % (skipped, tot)),
+        no_input=True)
   for r in results:
     case = r["case"]
     key = json.dumps(case, sort_keys=True)
@@ -220,6 +257,7 @@ def report(ctx, results):
       ctx.count("ds/eigh=%s" % c["eigh"])
       ctx.count("ds/ragged=%s" % any(d % c["block"] for d in case["shape"] if d > c["block"]))
     ctx.count("steps", len(r["steps"]))
+    ctx.count("ambiguous_skipped_steps(root error within 4x of the acceptance gate)", r.get("gate_skipped", 0))
     if case["kind"] == "ds":
       # how much room the conditioning slack leaves (informative only; Coq recomputes it from the
       # verified eigenvalue bounds)
@@ -289,6 +327,10 @@ def setup(ctx):
       "composition changes the rounding of the float32 root computation, which the conditioning amplifies; "
       "same form as C01's slack); the update tolerance uses the OBSERVED preconditioner differences; "
       "Tearfree roots bitwise",
+      "a step at which some reported root error lies within a factor 4 of the acceptance gate "
+      "(inverse_failure_threshold = 0.1), is non-finite, or falls on different sides of the gate in the three "
+      "runs ends the checked part of that history (rounding decides a discrete keep-old / take-new choice); "
+      "such steps are counted, the run fails above 5%",
       "with a grafting type other than NONE the per-block updates are compared after normalising by the "
       "observed block norms (the common grafting multiplier is C05's subject)"]
   return ctx.proofs(PROPS, extra_targets=EXTRA, dirs=DIRS)
